@@ -213,7 +213,10 @@ func (d *DefaultMetricLogWriter) nextFileNameOfTime(time uint64) (string, error)
 	dateStr := util.FormatDate(time)
 	filePattern := d.baseFilename + "." + dateStr
 	list, err := listMetricFilesConditional(d.baseDir, filePattern, func(fn string, p string) bool {
-		return strings.Contains(fn, p)
+		// Only this writer's own files of that day: another application whose name contains this
+		// one's (e.g. "pre-order" next to "order") logs into the same directory under a file name that
+		// contains the pattern, too.
+		return strings.HasPrefix(fn, p)
 	})
 	if err != nil {
 		return "", err
